@@ -95,6 +95,12 @@ func rcYAML(c *rcCfg, ports map[string]int, backA, backB string) []byte {
 		pc.Upstreams[1].Servers = []config.UpstreamServerConfig{{Addr: backB}, {Addr: backA, Backup: true}}
 	case "Bb+A":
 		pc.Upstreams[1].Servers = []config.UpstreamServerConfig{{Addr: backB, Backup: true}, {Addr: backA}}
+	case "B,A first":
+		pc.Upstreams[1].Policy = "first"
+		pc.Upstreams[1].Servers = []config.UpstreamServerConfig{{Addr: backB}, {Addr: backA}}
+	case "A,B first":
+		pc.Upstreams[1].Policy = "first"
+		pc.Upstreams[1].Servers = []config.UpstreamServerConfig{{Addr: backA}, {Addr: backB}}
 	}
 	pc.Locations = []config.LocationConfig{
 		{Name: "l1", Upstream: c.L1up, Prefixes: []string{"/a"}, ReqHeaders: []string{"X-L:1"}},
